@@ -601,21 +601,106 @@ macro_rules! c14_buf {
         }
     };
 }
+// concrete buffer length (the table-based encoders copy 2-byte table rows into chunks of the
+// destination; with a symbolic destination length CBMC runs out of memory)
+macro_rules! c14_bufc {
+    ($name:ident, $ty:ty, $n:literal, $l:literal, $form:literal, $len:literal, $unw:literal) => {
+        #[kani::proof]
+        #[kani::unwind($unw)]
+        fn $name() {
+            let bytes: [u8; $n] = kani::any();
+            let h = <$ty>::try_from(&bytes).unwrap();
+            let need: usize = match $form {
+                0 => $n,
+                1 => $l - 2,
+                _ => $l,
+            };
+            let mut buf: [u8; $l + 64] = kani::any();
+            let prior = buf;
+            let r = match $form {
+                0 => h.store_into_bytes(&mut buf[..$len]),
+                1 => h.store_into_str_bytes(&mut buf[..$len], HexStringPrefix::Empty),
+                _ => h.store_into_str_bytes(&mut buf[..$len], HexStringPrefix::WithVersion),
+            };
+            let k: usize = kani::any();
+            kani::assume(k < $l + 64);
+            if $len < need {
+                assert!(r == Err(OperationError::BufferIsTooSmall));
+                assert!(buf[k] == prior[k]);
+            } else {
+                assert!(r == Ok(need));
+                if k >= need {
+                    assert!(buf[k] == prior[k]);
+                } else {
+                    let mut exact = [0u8; $l];
+                    let _ = match $form {
+                        0 => h.store_into_bytes(&mut exact[..need]),
+                        1 => h.store_into_str_bytes(&mut exact[..need], HexStringPrefix::Empty),
+                        _ => h.store_into_str_bytes(&mut exact[..need], HexStringPrefix::WithVersion),
+                    };
+                    assert!(buf[k] == exact[k]);
+                }
+            }
+        }
+    };
+}
+//@ h=c14_short_hex_0 props=C14 cfgs=K1,K2 tier=q t=600 | funcs: Short::store_into_str_bytes(Empty) with the table-based encoders | bound: all values x arbitrary prior content, buffer length 0 (concrete)
+c14_bufc!(c14_short_hex_0, Short, 15, 32, 1, 0, 40);
+//@ h=c14_short_hex_28 props=C14 cfgs=K1,K2 tier=q t=600 | funcs: Short::store_into_str_bytes(Empty) with the table-based encoders | bound: all values x arbitrary prior content, buffer length 28 (concrete)
+c14_bufc!(c14_short_hex_28, Short, 15, 32, 1, 28, 40);
+//@ h=c14_short_hex_29 props=C14 cfgs=K1,K2 tier=q t=600 | funcs: Short::store_into_str_bytes(Empty) with the table-based encoders | bound: all values x arbitrary prior content, buffer length 29 (concrete)
+c14_bufc!(c14_short_hex_29, Short, 15, 32, 1, 29, 40);
+//@ h=c14_short_hex_30 props=C14 cfgs=K1,K2 tier=q t=600 | funcs: Short::store_into_str_bytes(Empty) with the table-based encoders | bound: all values x arbitrary prior content, buffer length 30 (concrete)
+c14_bufc!(c14_short_hex_30, Short, 15, 32, 1, 30, 40);
+//@ h=c14_short_hex_31 props=C14 cfgs=K1,K2 tier=q t=600 | funcs: Short::store_into_str_bytes(Empty) with the table-based encoders | bound: all values x arbitrary prior content, buffer length 31 (concrete)
+c14_bufc!(c14_short_hex_31, Short, 15, 32, 1, 31, 40);
+//@ h=c14_short_hex_94 props=C14 cfgs=K1,K2 tier=q t=600 | funcs: Short::store_into_str_bytes(Empty) with the table-based encoders | bound: all values x arbitrary prior content, buffer length 94 (concrete)
+c14_bufc!(c14_short_hex_94, Short, 15, 32, 1, 94, 40);
+//@ h=c14_short_t1_0 props=C14 cfgs=K1 tier=q t=600 | funcs: Short::store_into_str_bytes(WithVersion) with the table-based encoders | bound: all values x arbitrary prior content, buffer length 0 (concrete)
+c14_bufc!(c14_short_t1_0, Short, 15, 32, 2, 0, 40);
+//@ h=c14_short_t1_30 props=C14 cfgs=K1 tier=q t=600 | funcs: Short::store_into_str_bytes(WithVersion) with the table-based encoders | bound: all values x arbitrary prior content, buffer length 30 (concrete)
+c14_bufc!(c14_short_t1_30, Short, 15, 32, 2, 30, 40);
+//@ h=c14_short_t1_31 props=C14 cfgs=K1 tier=q t=600 | funcs: Short::store_into_str_bytes(WithVersion) with the table-based encoders | bound: all values x arbitrary prior content, buffer length 31 (concrete)
+c14_bufc!(c14_short_t1_31, Short, 15, 32, 2, 31, 40);
+//@ h=c14_short_t1_32 props=C14 cfgs=K1 tier=q t=600 | funcs: Short::store_into_str_bytes(WithVersion) with the table-based encoders | bound: all values x arbitrary prior content, buffer length 32 (concrete)
+c14_bufc!(c14_short_t1_32, Short, 15, 32, 2, 32, 40);
+//@ h=c14_short_t1_33 props=C14 cfgs=K1 tier=q t=600 | funcs: Short::store_into_str_bytes(WithVersion) with the table-based encoders | bound: all values x arbitrary prior content, buffer length 33 (concrete)
+c14_bufc!(c14_short_t1_33, Short, 15, 32, 2, 33, 40);
+//@ h=c14_short_t1_96 props=C14 cfgs=K1 tier=q t=600 | funcs: Short::store_into_str_bytes(WithVersion) with the table-based encoders | bound: all values x arbitrary prior content, buffer length 96 (concrete)
+c14_bufc!(c14_short_t1_96, Short, 15, 32, 2, 96, 40);
+//@ h=c14_normal_hex_69 props=C14 cfgs=K1 tier=q t=900 | funcs: Normal::store_into_str_bytes(Empty) | bound: all values x arbitrary prior content, buffer length 69 (concrete)
+c14_bufc!(c14_normal_hex_69, Normal, 35, 72, 1, 69, 80);
+//@ h=c14_normal_hex_70 props=C14 cfgs=K1 tier=q t=900 | funcs: Normal::store_into_str_bytes(Empty) | bound: all values x arbitrary prior content, buffer length 70 (concrete)
+c14_bufc!(c14_normal_hex_70, Normal, 35, 72, 1, 70, 80);
+//@ h=c14_normal_hex_134 props=C14 cfgs=K1 tier=q t=900 | funcs: Normal::store_into_str_bytes(Empty) | bound: all values x arbitrary prior content, buffer length 134 (concrete)
+c14_bufc!(c14_normal_hex_134, Normal, 35, 72, 1, 134, 80);
+//@ h=c14_normal_t1_71 props=C14 cfgs=K1 tier=q t=900 | funcs: Normal::store_into_str_bytes(WithVersion) | bound: all values x arbitrary prior content, buffer length 71 (concrete)
+c14_bufc!(c14_normal_t1_71, Normal, 35, 72, 2, 71, 80);
+//@ h=c14_normal_t1_72 props=C14 cfgs=K1 tier=q t=900 | funcs: Normal::store_into_str_bytes(WithVersion) | bound: all values x arbitrary prior content, buffer length 72 (concrete)
+c14_bufc!(c14_normal_t1_72, Normal, 35, 72, 2, 72, 80);
+//@ h=c14_normal_t1_136 props=C14 cfgs=K1 tier=q t=900 | funcs: Normal::store_into_str_bytes(WithVersion) | bound: all values x arbitrary prior content, buffer length 136 (concrete)
+c14_bufc!(c14_normal_t1_136, Normal, 35, 72, 2, 136, 80);
+//@ h=c14_longl_hex_137 props=C14 cfgs=K1 tier=t t=900 | funcs: LongWithLongChecksum::store_into_str_bytes(Empty) | bound: all values x arbitrary prior content, buffer length 137 (concrete)
+c14_bufc!(c14_longl_hex_137, LongWithLongChecksum, 69, 140, 1, 137, 148);
+//@ h=c14_longl_hex_138 props=C14 cfgs=K1 tier=t t=900 | funcs: LongWithLongChecksum::store_into_str_bytes(Empty) | bound: all values x arbitrary prior content, buffer length 138 (concrete)
+c14_bufc!(c14_longl_hex_138, LongWithLongChecksum, 69, 140, 1, 138, 148);
+//@ h=c14_longl_hex_202 props=C14 cfgs=K1 tier=t t=900 | funcs: LongWithLongChecksum::store_into_str_bytes(Empty) | bound: all values x arbitrary prior content, buffer length 202 (concrete)
+c14_bufc!(c14_longl_hex_202, LongWithLongChecksum, 69, 140, 1, 202, 148);
+//@ h=c14_longl_t1_139 props=C14 cfgs=K1 tier=t t=900 | funcs: LongWithLongChecksum::store_into_str_bytes(WithVersion) | bound: all values x arbitrary prior content, buffer length 139 (concrete)
+c14_bufc!(c14_longl_t1_139, LongWithLongChecksum, 69, 140, 2, 139, 148);
+//@ h=c14_longl_t1_140 props=C14 cfgs=K1 tier=t t=900 | funcs: LongWithLongChecksum::store_into_str_bytes(WithVersion) | bound: all values x arbitrary prior content, buffer length 140 (concrete)
+c14_bufc!(c14_longl_t1_140, LongWithLongChecksum, 69, 140, 2, 140, 148);
+//@ h=c14_longl_t1_204 props=C14 cfgs=K1 tier=t t=900 | funcs: LongWithLongChecksum::store_into_str_bytes(WithVersion) | bound: all values x arbitrary prior content, buffer length 204 (concrete)
+c14_bufc!(c14_longl_t1_204, LongWithLongChecksum, 69, 140, 2, 204, 148);
 //@ h=c14_short_bin props=C14 cfgs=K1 tier=q t=900 | funcs: Short::store_into_bytes | bound: all values x ALL buffer lengths 0..=N+64 (symbolic length) x arbitrary prior content
 c14_buf!(c14_short_bin, Short, 15, 32, 0, 36);
-//@ h=c14_short_hex props=C14 cfgs=K1,K2,K3 tier=q t=900 | funcs: Short::store_into_str_bytes(Empty), encode_rev_array, encode_rev_1, encode_array (three encode-table configurations) | bound: all values x all buffer lengths 0..=N+64 x arbitrary prior content
+//@ h=c14_short_hex props=C14 cfgs=K3 tier=q t=900 | funcs: Short::store_into_str_bytes(Empty) with the nibble-table encoders (opt-low-memory-hex-str-encode-min-table) | bound: all values x all buffer lengths 0..=N+64 (symbolic) x arbitrary prior content
 c14_buf!(c14_short_hex, Short, 15, 32, 1, 36);
-//@ h=c14_short_t1 props=C14 cfgs=K1,K3 tier=q t=900 | funcs: Short::store_into_str_bytes(WithVersion) | bound: all values x all buffer lengths 0..=N+64 x arbitrary prior content
+//@ h=c14_short_t1 props=C14 cfgs=K3 tier=q t=900 | funcs: Short::store_into_str_bytes(WithVersion), nibble-table encoders | bound: all values x all buffer lengths 0..=N+64 (symbolic) x arbitrary prior content
 c14_buf!(c14_short_t1, Short, 15, 32, 2, 36);
-//@ h=c14_normal_t1 props=C14 cfgs=K1 tier=q t=1500 | funcs: Normal::store_into_str_bytes(WithVersion) | bound: all values x all buffer lengths
-c14_buf!(c14_normal_t1, Normal, 35, 72, 2, 76);
-//@ h=c14_normall_bin props=C14 cfgs=K1 tier=q t=900 | funcs: NormalWithLongChecksum::store_into_bytes | bound: all values x all buffer lengths
+//@ h=c14_normall_bin props=C14 cfgs=K1 tier=q t=900 | funcs: NormalWithLongChecksum::store_into_bytes | bound: all values x all buffer lengths (symbolic)
 c14_buf!(c14_normall_bin, NormalWithLongChecksum, 37, 76, 0, 80);
-//@ h=c14_normall_hex props=C14 cfgs=K1 tier=t t=1800 | funcs: NormalWithLongChecksum::store_into_str_bytes(Empty) | bound: all values x all buffer lengths
-c14_buf!(c14_normall_hex, NormalWithLongChecksum, 37, 76, 1, 80);
-//@ h=c14_long_t1 props=C14 cfgs=K1 tier=t t=2400 | funcs: Long::store_into_str_bytes(WithVersion) | bound: all values x all buffer lengths
-c14_buf!(c14_long_t1, Long, 67, 136, 2, 140);
-//@ h=c14_longl_hex props=C14 cfgs=K1 tier=t t=2400 | funcs: LongWithLongChecksum::store_into_str_bytes(Empty) | bound: all values x all buffer lengths
-c14_buf!(c14_longl_hex, LongWithLongChecksum, 69, 140, 1, 144);
-//@ h=c14_longl_bin props=C14 cfgs=K1 tier=q t=900 | funcs: LongWithLongChecksum::store_into_bytes | bound: all values x all buffer lengths
+//@ h=c14_longl_bin props=C14 cfgs=K1 tier=q t=900 | funcs: LongWithLongChecksum::store_into_bytes | bound: all values x all buffer lengths (symbolic)
 c14_buf!(c14_longl_bin, LongWithLongChecksum, 69, 140, 0, 144);
+//@ h=c14_normal_t1 props=C14 cfgs=K3 tier=t t=1800 | funcs: Normal::store_into_str_bytes(WithVersion), nibble-table encoders | bound: all values x all buffer lengths (symbolic)
+c14_buf!(c14_normal_t1, Normal, 35, 72, 2, 76);
